@@ -161,29 +161,67 @@ func checkC02(c *Ctx, r *Report) {
 		r.Undecided("C02.R1", "hashed string", c.Pos(f.Pos()), "no call to FromString/NewCacheKey in MakeFromRequest")
 		return
 	}
-	srcs := reqFieldSources(keyStr, req)
+	// what the hashed string is computed from: the value itself and, when it is assembled piecewise (a
+	// strings.Builder, a Join), each of its components
+	roots := []ssa.Value{keyStr}
+	if sg, ok := keySegments(keyStr, 0); ok {
+		for _, s := range sg {
+			if s.val != nil {
+				roots = append(roots, s.val)
+			}
+		}
+	}
+	srcs := map[string]bool{}
+	keyCalls := map[string]bool{}
+	condFields := map[string]bool{}
+	for _, rt := range roots {
+		for k := range reqFieldSources(rt, req) {
+			srcs[k] = true
+		}
+		for k := range callsInDerivation(rt) {
+			keyCalls[k] = true
+		}
+		for k := range condRequestFields(rt, req) {
+			condFields[k] = true
+		}
+	}
 	for _, want := range []string{"TLS", "Method", "Host", "URL.Path", "URL.RawQuery"} {
 		alt := want
-		if want == "URL.Path" && (srcs["URL.RawPath"] || callsInDerivation(keyStr)["(*net/url.URL).EscapedPath"]) {
+		if want == "URL.Path" && (srcs["URL.RawPath"] || keyCalls["(*net/url.URL).EscapedPath"]) {
 			alt = "URL.RawPath"
 			srcs["URL.Path"] = true
 		}
 		// TLS influences the key through control flow (which scheme constant is chosen)
-		if want == "TLS" && !srcs["TLS"] && condRequestFields(keyStr, req)["TLS"] {
+		if want == "TLS" && !srcs["TLS"] && condFields["TLS"] {
 			srcs["TLS"] = true
 		}
 		r.Check(srcs[want], "C02.R1", "key depends on request."+alt, c.Pos(f.Pos()), "component reaches the hashed string", "the cache key does not depend on request."+want+": two requests differing only there share an entry")
 	}
 
 	// ---- R2/R3 framing
-	format, ops, ok := sprintfOperands(keyStr)
-	if !ok || format == "" {
-		r.Undecided("C02.R2", "framing expression", c.Pos(f.Pos()), "the hashed string is not built by a single fmt.Sprintf with a constant format; injectivity of another construction is not decided")
+	segs, ok := keySegments(keyStr, 0)
+	if !ok {
+		r.Undecided("C02.R2", "framing expression", c.Pos(f.Pos()), "the hashed string is not built by constant-format Sprintf / concatenation / Join of a literal list / a straight-line strings.Builder; injectivity of another construction is not decided")
 		return
 	}
-	verbs := verbRe.FindAllString(format, -1)
-	if len(verbs) != len(ops) {
-		r.Fail("C02.R2", "framing expression", c.Pos(f.Pos()), fmt.Sprintf("format %q has %d verbs for %d operands", format, len(verbs), len(ops)))
+	var ops []ssa.Value
+	var verbs []string
+	var escapedSeg []bool
+	var nextLit []string // the constant text that follows each component
+	for i, sg := range segs {
+		if sg.val != nil {
+			ops = append(ops, sg.val)
+			verbs = append(verbs, sg.how)
+			escapedSeg = append(escapedSeg, sg.escaped)
+			nl := ""
+			if i+1 < len(segs) && segs[i+1].val == nil {
+				nl = segs[i+1].lit
+			}
+			nextLit = append(nextLit, nl)
+		}
+	}
+	if len(ops) < 2 {
+		r.Undecided("C02.R2", "framing expression", c.Pos(f.Pos()), "the hashed string has fewer than two components in the form "+segsString(segs)+": how the request's parts are framed inside it is not decided")
 		return
 	}
 	lastArb := -1
@@ -204,7 +242,7 @@ func checkC02(c *Ctx, r *Report) {
 			name += " (" + strings.Join(uniq(sl), ",") + ")"
 		}
 		calls := callsInDerivation(op)
-		escaped := strings.HasSuffix(verb, "q") || strings.HasSuffix(verb, "x") || strings.HasSuffix(verb, "X") || calls["strconv.Quote"] || calls["net/url.QueryEscape"] || calls["net/url.PathEscape"] || calls["encoding/hex.EncodeToString"]
+		escaped := escapedSeg[i] || calls["strconv.Quote"] || calls["net/url.QueryEscape"] || calls["net/url.PathEscape"] || calls["encoding/hex.EncodeToString"]
 		switch {
 		case isFixedString(op, 0):
 			r.OkT("C02.R2", name, c.Pos(f.Pos()), "fixed alphabet (finite set of constants)")
@@ -212,12 +250,28 @@ func checkC02(c *Ctx, r *Report) {
 			r.Ok("C02.R2", name, c.Pos(f.Pos()), "rendered with "+verb+" / an escaping function: its extent in the key is unambiguous")
 		case i == lastArb:
 			r.Ok("C02.R2", name, c.Pos(f.Pos()), "last client-controlled component: nothing follows it")
+		case nextLit[i] != "" && calls["(*net/url.URL).EscapedPath"] && onlyPathCalls(calls) && strings.ContainsRune("?#|\"\\ <>^`{}", rune(nextLit[i][0])):
+			// URL.EscapedPath() percent-encodes every byte outside unreserved / sub-delims / ":@/": the component cannot
+			// contain the character that follows it, so its end is unambiguous
+			r.Ok("C02.R2", name, c.Pos(f.Pos()), fmt.Sprintf("an escaped path cannot contain %q, which delimits it", nextLit[i][0]))
 		default:
 			r.Fail("C02.R2", name, c.Pos(f.Pos()), "client-controlled component is joined raw ("+verb+") before another one: a separator character inside it can be moved across the boundary, so two different requests produce the same key")
 		}
 		// R3 per component
 		if s["Host"] {
 			r.Check(calls["strings.ToLower"] || calls["strings.ToUpper"] || calls["strings.EqualFold"], "C02.R3", "Host is case-folded", c.Pos(f.Pos()), "passes strings.ToLower/ToUpper", "Host reaches the key without a case fold: example.com and EXAMPLE.com get different entries")
+			// ... and letter case is the only thing two spellings of a host may differ in: any other rewriting
+			// (a port or a suffix cut off, a split, a prefix trimmed) maps different servers to one entry
+			bad := ""
+			for cn := range calls {
+				if cn == "strings.ToLower" || cn == "strings.ToUpper" {
+					continue
+				}
+				if strings.HasPrefix(cn, "strings.") || strings.HasPrefix(cn, "net.") || strings.HasPrefix(cn, "net/url.") || strings.HasPrefix(cn, "(*net/url.") || strings.HasPrefix(cn, "path.") || strings.HasPrefix(cn, "regexp.") || strings.HasPrefix(cn, "(*regexp.") || strings.HasPrefix(cn, "bytes.") {
+					bad = cn
+				}
+			}
+			r.Check(bad == "", "C02.R3", "Host reaches the key with a case fold only", c.Pos(f.Pos()), "no other rewriting of the host", "Host is passed through "+bad+" before keying: hosts that differ in more than letter case (another port, another suffix) can share an entry")
 		}
 		if s["Method"] || s["URL.RawQuery"] {
 			bad := ""
@@ -516,3 +570,15 @@ func checkC02(c *Ctx, r *Report) {
 // condOfPhi: a pseudo condition value set for a phi — returns the phi itself so
 // condLeaves explores the branch conditions selecting its edges.
 func condOfPhi(phi *ssa.Phi) ssa.Value { return phi }
+
+// onlyPathCalls: the component passed nothing but the escaped-path getter and alphabet-preserving path functions.
+func onlyPathCalls(calls map[string]bool) bool {
+	for cn := range calls {
+		switch cn {
+		case "(*net/url.URL).EscapedPath", "path.Clean", "strings.HasSuffix", "strings.HasPrefix", "strings.ToLower", "strings.ToUpper":
+		default:
+			return false
+		}
+	}
+	return true
+}
